@@ -195,7 +195,7 @@ class err_handler(object):
         """
         #pdb.set_trace()
         if not self.seg_node_added:
-            if self.cur_st_node is None:
+            if self.cur_st_node is None or self.cur_st_node.is_closed():
                 # Segment outside of any transaction set: nowhere to attach it
                 return
             self.cur_st_node.children.append(self.cur_seg_node)
@@ -281,6 +281,11 @@ class err_handler(object):
         @type err_str: string
         """
         sout = ''
+        if not self.seg_node_added and (self.cur_st_node is None or self.cur_st_node.is_closed()):
+            # A segment between the envelope segments, outside of any transaction
+            # set, can not be filed under a set: it is invalid interchange content
+            self.isa_error('024', err_str)
+            return
         try:
             self._add_cur_seg()
             self.cur_seg_node.add_error(err_cde, err_str, err_value)
